@@ -142,14 +142,167 @@ def _run(case):
     return M, _Count.n
 
 
-def impl(case):
-    M, cnt = _run(case)
-    if case["variant"] == "matcher":
-        p2h = M.get_mappings()
-        assert p2h == M.mappings
-        return [M._last_pattern_is_G1, M.last_size, cnt, _dicts(p2h), _dicts(M.get_mappings("G1_to_G2")),
+def _obs(M, cnt, variant):
+    if variant == "matcher":
+        return [M._last_pattern_is_G1, M.last_size, cnt, _dicts(M.get_mappings()), _dicts(M.get_mappings("G1_to_G2")),
                 _dicts(M.get_mappings("G2_to_G1"))]
     return [M.last_size, cnt, _dicts(M.get_mappings())]
+
+
+def impl(case):
+    if "steps" in case:
+        return [[o, ok] for o, ok, _ in _run_history(case)]
+    M, cnt = _run(case)
+    if case["variant"] == "matcher":
+        assert M.get_mappings() == M.mappings
+    return _obs(M, cnt, case["variant"])
+
+
+# ------------------------------------------------------------------ histories on shared objects (round 3)
+
+def _morph(X, g):
+    """Turn the networkx graph X into the graph g IN PLACE (same Python object; attribute dicts of surviving nodes / edges are
+    kept and rewritten), as a caller does who edits an input between two calls."""
+    want = {n: a for n, a in g["nodes"]}
+    for n in list(X.nodes):
+        if n not in want:
+            X.remove_node(n)
+    for n, a in g["nodes"]:
+        if n in X:
+            X.nodes[n].clear()
+            X.nodes[n].update(a)
+        else:
+            X.add_node(n, **a)
+    wante = {frozenset((u, v)) for u, v, _ in g["edges"]}
+    for u, v in list(X.edges):
+        if frozenset((u, v)) not in wante:
+            X.remove_edge(u, v)
+    for u, v, a in g["edges"]:
+        if X.has_edge(u, v):
+            X[u][v].clear()
+            X[u][v].update(a)
+        else:
+            X.add_edge(u, v, **a)
+    return X
+
+
+def _sub(case, st):
+    """The single-call case a history step amounts to when evaluated afresh (what model and oracle judge)."""
+    cfg = case["configs"][st.get("cfg", 0)] if "configs" in case else case
+    d = dict(kind=case["kind"], variant=case["variant"], g1=st["g1"], g2=st["g2"], mcs=st["mcs"],
+             node_attrs=cfg["node_attrs"], node_defaults=cfg["node_defaults"], edge_attrs=cfg["edge_attrs"],
+             prune_wc=cfg.get("prune_wc", False), prune_auto=cfg.get("prune_auto", False), implicit=cfg.get("implicit", False))
+    if st.get("call") in ("mcs_mol", "component"):
+        d["mode"] = st["call"]
+    return d
+
+
+def _new_matcher(sub):
+    na, nd, ea = _ctor_args(sub)
+    if sub["variant"] == "matcher":
+        mod = _patched("synkit.Graph.Matcher.mcs_matcher")
+        if sub.get("positional"):
+            return mod.MCSMatcher(na, nd, True, edge_attrs=ea, prune_wc=sub.get("prune_wc", False),
+                                  prune_automorphisms=sub.get("prune_auto", False))
+        return mod.MCSMatcher(node_attrs=na, node_defaults=nd, edge_attrs=ea, prune_wc=sub.get("prune_wc", False),
+                              prune_automorphisms=sub.get("prune_auto", False))
+    mod = _patched("synkit.Graph.MTG.mcs_matcher")
+    return mod.MCSMatcher(na, nd, sub["edge_attrs"][0]) if ea is not None else mod.MCSMatcher(na, nd)
+
+
+def _derived_ok(M, variant, reads):
+    """Everything derived from the stored result must agree with it, on repeated reads in any order, and must not be
+    disturbed by a caller who edits what an earlier read returned."""
+    import copy
+    ok = True
+    if variant == "matcher":
+        first = {}
+        for d in reads:
+            r = M.get_mappings(d) if d != "kw" else M.get_mappings(direction="G1_to_G2")
+            key = "G1_to_G2" if d == "kw" else d
+            if key in first:
+                ok &= (r == first[key])
+            else:
+                first[key] = copy.deepcopy(r)
+            for m in r:                 # the caller edits the returned copies
+                m.clear()
+            r.append({-1: -1})
+        for d, want in first.items():
+            ok &= (M.get_mappings(d) == want)
+        p = M.get_mappings()
+        ok &= (M.mappings == p and M.num_mappings == len(p) and [dict(m) for m in M] == p)
+        flag = M._last_pattern_is_G1
+        ok &= (M.mapping_direction == ("unknown" if flag is None else "G1_to_G2" if flag else "G2_to_G1"))
+        ok &= (M.last_size == M._last_size)
+        ok &= ("mappings=%d " % len(p)) in repr(M) and ("last_size=%d " % M.last_size) in repr(M)
+        if flag is not None:
+            try:
+                M.get_mappings("G1_to_g2")
+                ok = False
+            except ValueError:
+                pass
+        a, b = M.get_mappings("G1_to_G2"), M.get_mappings("G2_to_G1")
+        ok &= (p == (a if flag or flag is None else b))
+    else:
+        r = M.get_mappings()
+        want = copy.deepcopy(r)
+        r.append({-1: -1})
+        del r[:1]
+        ok &= (M.get_mappings() == want and M.last_size == M._last_size)
+        ok &= ("mappings=%d," % len(want)) in repr(M)
+    return bool(ok)
+
+
+def _views(M, variant):
+    import copy
+    if variant == "matcher":
+        return (copy.deepcopy(M.get_mappings("G1_to_G2")), copy.deepcopy(M.get_mappings("G2_to_G1")),
+                copy.deepcopy(M.get_mappings("pattern_to_host")), M._last_pattern_is_G1)
+    return (copy.deepcopy(M.get_mappings()), None, None, None)
+
+
+def _run_history(case):
+    """Plays the steps in ONE process on SHARED objects: one matcher per configuration, graph objects reused and edited in
+    place where a step says so.  Returns per step (observable, derived-views-consistent, views for the oracle)."""
+    matchers, objs, out = {}, {}, []
+    variant = case["variant"]
+    for k, st in enumerate(case["steps"]):
+        sub = _sub(case, st)
+        sub["positional"] = st.get("positional", False)
+        ci = st.get("cfg", 0)
+        if ci not in matchers or st.get("fresh"):
+            matchers[ci] = _new_matcher(sub)
+        M = matchers[ci]
+        gs = []
+        for side in ("g1", "g2"):
+            src = st.get("src_" + side)
+            if src is not None:
+                X = _morph(objs[tuple(src)], st[side])
+            else:
+                X = G.to_nx(st[side])
+            objs[(k, side)] = X
+            gs.append(X)
+        _Count.n = 0
+        call = st.get("call", "fcs")
+        if variant == "mtg":
+            M.find_common_subgraph(gs[0], gs[1], mcs=st["mcs"])
+        elif call == "fcs":
+            r = M.find_common_subgraph(gs[0], gs[1], mcs=st["mcs"])
+            assert r is M
+        elif call == "rc_its":
+            r = M.find_rc_mapping(gs[0], gs[1], side=st.get("side", "its"), mcs=st["mcs"], component=False)
+            assert r is M
+        elif call == "component":
+            M.find_rc_mapping(gs[0], gs[1], side="its", mcs=st["mcs"], component=True)
+        elif call == "mcs_mol":
+            M.find_common_subgraph(gs[0], gs[1], mcs=st["mcs"], mcs_mol=True)
+        else:
+            raise AssertionError(call)
+        cnt = _Count.n
+        views = _views(M, variant)
+        ok = _derived_ok(M, variant, st.get("reads", ["G1_to_G2", "G2_to_G1"]))
+        out.append((_obs(M, cnt, variant), ok, views))
+    return out
 
 
 # ------------------------------------------------------------------ model encoder
@@ -205,6 +358,11 @@ def _coq_graph(g, case, I):
 
 
 def coq_case(case):
+    if "steps" in case:
+        terms = [coq_case(_sub(case, st)) for st in case["steps"]]
+        if any(t is None for t in terms):
+            return None
+        return "L [%s]" % "; ".join("L [%s; tbool true]" % t for t in terms)
     if not _in_domain(case):
         return None
     I = _intern(case)
@@ -293,21 +451,21 @@ def brute_max(t1, t2):
     return best[0]
 
 
-def oracle(case):
+def _judge(case, views, flag_known=True):
     fails = []
-    M, _ = _run(case)
+    a, b, p, flag = views
     t1, t2 = _tables(case["g1"], case), _tables(case["g2"], case)
     mode = case.get("mode")
     if case["variant"] == "matcher":
-        a = M.get_mappings("G1_to_G2")
-        b = M.get_mappings("G2_to_G1")
-        p = M.get_mappings("pattern_to_host")
         if len(a) != len(b) or any({v: u for u, v in x.items()} != y or {v: u for u, v in y.items()} != x for x, y in zip(a, b)):
             fails.append(dict(clause="directions-inverse", detail="G1_to_G2 and G2_to_G1 are not position-wise mutually inverse"))
         if p != a and p != b:
             fails.append(dict(clause="directions-inverse", detail="pattern_to_host equals neither direction"))
-    else:
-        a = M.get_mappings()
+        for m in b:
+            why = _valid(m, t2, t1)
+            if why:
+                fails.append(dict(clause="valid", detail="G2_to_G1: %s in %r" % (why, m)))
+                break
     for m in a:
         why = _valid(m, t1, t2)
         if why:
@@ -322,13 +480,30 @@ def oracle(case):
         if got < k:
             fails.append(dict(clause="maximum", detail="returned size %d but a common induced subgraph with %d nodes exists" % (got, k)))
         if case.get("prune_auto") and a:
-            hs = [frozenset(m.values()) if M._last_pattern_is_G1 else frozenset(m.keys()) for m in a]
+            hs = [frozenset(m.values()) if flag else frozenset(m.keys()) for m in a]
             if len(set(hs)) != len(hs):
                 fails.append(dict(clause="prune-auto", detail="two kept mappings cover the same host node set"))
-    return fails[:3]
+    return fails
+
+
+def oracle(case):
+    if "steps" in case:
+        fails = []
+        for k, (st, (_, ok, views)) in enumerate(zip(case["steps"], _run_history(case))):
+            for f in _judge(_sub(case, st), views):
+                f["detail"] = "step %d (%s): %s" % (k, st.get("call", "fcs"), f["detail"])
+                fails.append(f)
+            if not ok:
+                fails.append(dict(clause="directions-inverse", detail="step %d: a derived view (repeated / re-ordered read of get_mappings, "
+                                  "mappings, num_mappings, mapping_direction, iteration, last_size) disagrees with the stored result" % k))
+        return fails[:3]
+    M, _ = _run(case)
+    return _judge(case, _views(M, case["variant"]))[:3]
 
 
 def nontrivial(case, obs):
+    if "steps" in case:
+        return len(case["steps"]) >= 2 and any(nontrivial(_sub(case, st), o[0]) for st, o in zip(case["steps"], obs))
     if len(case["g1"]["nodes"]) < 2 or len(case["g2"]["nodes"]) < 2:
         return False
     if case["g1"] == case["g2"]:
@@ -339,7 +514,22 @@ def nontrivial(case, obs):
 
 def distribution(cases, obss):
     sizes, ks, nm, first_larger, modes = {}, {}, {}, 0, {}
+    hist = {}
+    flat = []
     for c, o in zip(cases, obss):
+        if "steps" in c:
+            hist["histories"] = hist.get("histories", 0) + 1
+            hist["steps"] = hist.get("steps", 0) + len(c["steps"])
+            for st in c["steps"]:
+                hist["call:" + st.get("call", "fcs")] = hist.get("call:" + st.get("call", "fcs"), 0) + 1
+                if st.get("src_g1") or st.get("src_g2"):
+                    hist["steps_on_reused_graph_objects"] = hist.get("steps_on_reused_graph_objects", 0) + 1
+            ok = isinstance(o, list) and o and o[0] != "EXC"
+            for i, st in enumerate(c["steps"]):
+                flat.append((_sub(c, st), o[i][0] if ok else o))
+        else:
+            flat.append((c, o))
+    for c, o in flat:
         a, b = len(c["g1"]["nodes"]), len(c["g2"]["nodes"])
         sizes["%dx%d" % (a, b)] = sizes.get("%dx%d" % (a, b), 0) + 1
         first_larger += a > b
@@ -352,7 +542,9 @@ def distribution(cases, obss):
             b_ = "0" if not ms else "1" if len(ms) == 1 else "2-9" if len(ms) < 10 else "10-99" if len(ms) < 100 else "100+"
             nm[b_] = nm.get(b_, 0) + 1
     return dict(size_pairs=dict(sorted(sizes.items())), largest_mapping_size=dict(sorted(ks.items())), number_of_mappings=nm,
-                first_graph_larger=first_larger, modes=modes,
+                first_graph_larger=first_larger, modes=modes, histories=hist,
+                empty_graph_calls=sum(1 for c, _ in flat if not c["g1"]["nodes"] or not c["g2"]["nodes"]),
+                calls_with_10plus_nodes=sum(1 for c, _ in flat if max(len(c["g1"]["nodes"]), len(c["g2"]["nodes"])) >= 10),
                 disconnected_first_graph=sum(1 for c in cases if _n_comp(c["g1"]) > 1),
                 wildcard_pruning=sum(1 for c in cases if c.get("prune_wc")),
                 oracle_only=sum(1 for c in cases if c.get("prune_auto") or c.get("mode")))
@@ -572,6 +764,203 @@ def _oracle_only(rng, n):
     return out
 
 
+# ------------------------------------------------------------------ round 3: histories, degenerate values, sizes
+
+def _gcopy(g):
+    return {"nodes": [[n, dict(a)] for n, a in g["nodes"]], "edges": [[u, v, dict(a)] for u, v, a in g["edges"]]}
+
+
+def _edit(rng, g):
+    """A caller's in-place edit: count-preserving (one label / one order changed) or count-changing (atom or bond added/removed)."""
+    h = _gcopy(g)
+    z = rng.random()
+    if z < 0.3 and h["nodes"]:
+        a = rng.choice(h["nodes"])[1]
+        a["element"] = rng.choice([e for e in ("C", "O", "N") if e != a.get("element")])
+    elif z < 0.55 and h["edges"]:
+        a = rng.choice(h["edges"])[2]
+        a["order"] = rng.choice([o for o in (1, 2, 1.5) if o != a.get("order")])
+    elif z < 0.7 and len(h["nodes"]) > 1:
+        n = rng.choice(h["nodes"])[0]
+        h["nodes"] = [x for x in h["nodes"] if x[0] != n]
+        h["edges"] = [e for e in h["edges"] if n not in (e[0], e[1])]
+    elif z < 0.85:
+        new = max([n for n, _ in h["nodes"]] + [0]) + rng.randint(1, 3)
+        h["nodes"].append([new, {"element": rng.choice(["C", "O"]), "charge": 0}])
+        if len(h["nodes"]) > 1 and rng.random() < 0.7:
+            h["edges"].append([rng.choice(h["nodes"][:-1])[0], new, {"order": rng.choice([1, 2])}])
+    elif h["edges"]:
+        h["edges"].pop(rng.randrange(len(h["edges"])))
+    else:
+        h["nodes"].append([max([n for n, _ in h["nodes"]] + [0]) + 1, {"element": "C", "charge": 0}])
+    return h
+
+
+_DIRS = ["G1_to_G2", "G2_to_G1", "pattern_to_host", "kw"]
+
+
+def _hist_case(kind, variant, configs, steps):
+    last = steps[-1]
+    c = dict(kind=kind, variant=variant, configs=configs, steps=steps, g1=last["g1"], g2=last["g2"], mcs=last["mcs"])
+    c.update({k: configs[0][k] for k in ("node_attrs", "node_defaults", "edge_attrs")})
+    c["prune_wc"] = configs[0].get("prune_wc", False)
+    return c
+
+
+def _small_pair(rng):
+    z = rng.random()
+    if z < 0.4:
+        return _planted(rng, rng.randint(1, 5), rng.randint(1, 5))
+    if z < 0.7:
+        return (G.random_relabel(_rand(rng, rng.randint(3, 5), 0.4), rng, 1, 15),
+                G.random_relabel(_rand(rng, rng.randint(1, 3), 0.5), rng, 1, 15))
+    return (G.random_relabel(_rand(rng, rng.randint(1, 4), 0.4), rng, 1, 15),
+            G.random_relabel(_rand(rng, rng.randint(2, 5), 0.4), rng, 1, 15))
+
+
+def _histories(rng, n, calls=("fcs",)):
+    """2-5 calls on ONE matcher object (and on shared graph objects): other pairs, arguments swapped, inputs edited in place,
+    another configuration in between; derived views read repeatedly, in random order, and edited by the caller."""
+    out = []
+    for t in range(n):
+        variant = "mtg" if rng.random() < 0.25 else "matcher"
+        two = rng.random() < 0.3
+        base = dict(node_attrs=["element", "charge"] if two else ["element"], node_defaults=["*", 0] if two else ["*"],
+                    edge_attrs=["order"], implicit=rng.random() < 0.3)
+        configs = [base]
+        if variant == "matcher" and rng.random() < 0.3:
+            configs.append(dict(node_attrs=["element"] if two else ["element", "charge"], node_defaults=["*"] if two else ["*", 0],
+                                edge_attrs=["order"], prune_wc=rng.random() < 0.3))
+        steps = []
+        flavour = rng.choice(["pairs", "pairs", "swap", "edit", "edit", "mixed"])
+        g1, g2 = _small_pair(rng)
+        for k in range(rng.randint(2, 5 if flavour == "pairs" else 4)):
+            st = dict(mcs=rng.random() < 0.7, call=rng.choice(calls) if variant == "matcher" else "fcs",
+                      reads=[rng.choice(_DIRS) for _ in range(rng.randint(1, 5))], positional=rng.random() < 0.3)
+            if len(configs) > 1:
+                st["cfg"] = rng.randrange(2)
+            if k == 0:
+                st.update(g1=g1, g2=g2)
+            else:
+                pr = steps[-1]
+                f = flavour if flavour != "mixed" else rng.choice(["pairs", "swap", "edit", "same"])
+                if f == "pairs":
+                    a, b = _small_pair(rng)
+                    if rng.random() < 0.5 and len(a["nodes"]) < len(b["nodes"]) and len(pr["g1"]["nodes"]) <= len(pr["g2"]["nodes"]):
+                        a, b = b, a             # make the orientation flip between consecutive calls
+                    st.update(g1=a, g2=b)
+                    if rng.random() < 0.3:      # ... on recycled graph objects
+                        st.update(src_g1=[k - 1, "g1"], src_g2=[k - 1, "g2"])
+                elif f == "swap":
+                    st.update(g1=pr["g2"], g2=pr["g1"], src_g1=[k - 1, "g2"], src_g2=[k - 1, "g1"])
+                elif f == "edit":
+                    if rng.random() < 0.5:
+                        st.update(g1=_edit(rng, pr["g1"]), g2=pr["g2"])
+                    else:
+                        st.update(g1=pr["g1"], g2=_edit(rng, pr["g2"]))
+                    st.update(src_g1=[k - 1, "g1"], src_g2=[k - 1, "g2"])
+                else:
+                    st.update(g1=pr["g1"], g2=pr["g2"], src_g1=[k - 1, "g1"], src_g2=[k - 1, "g2"])
+            steps.append(st)
+        out.append(_hist_case("history/" + flavour, variant, configs, steps))
+    return out
+
+
+def _degenerate(rng, n):
+    """Empty graphs, single atoms, isolated atoms, node id 0 and ids with 2-3 digits, falsy labels (element "" or 0, charge 0
+    against a missing charge), bond order 0 / 0.0, labels absent on some atoms only -- as single calls and inside histories."""
+    def one():
+        z = rng.random()
+        if z < 0.2:
+            g = {"nodes": [], "edges": []}
+        elif z < 0.4:
+            g = {"nodes": [[rng.choice([0, 7, 10, 123]), {"element": rng.choice(["C", "", 0, "*"]), "charge": 0}]], "edges": []}
+        else:
+            k = rng.randint(2, 4)
+            ids = rng.sample([0, 1, 2, 9, 10, 11, 99, 100, 101], k)
+            g = {"nodes": [[i, {"element": rng.choice(["C", "C", "", 0]), "charge": rng.choice([0, 0, -1, 10])}] for i in ids], "edges": []}
+            for x in range(k):
+                for y in range(x + 1, k):
+                    if rng.random() < 0.4:
+                        g["edges"].append([ids[x], ids[y], {"order": rng.choice([0, 0.0, 1, 2])}])
+            for _, a in g["nodes"]:
+                if rng.random() < 0.3:
+                    a.pop("charge")
+                if rng.random() < 0.2:
+                    a.pop("element")
+            for e in g["edges"]:
+                if rng.random() < 0.2:
+                    e[2].pop("order")
+        return g
+    out = []
+    for t in range(n):
+        variant = "mtg" if rng.random() < 0.25 else "matcher"
+        two = rng.random() < 0.5
+        cfg = dict(node_attrs=["element", "charge"] if two else ["element"], node_defaults=["*", 0] if two else ["*"],
+                   edge_attrs=["order"], implicit=rng.random() < 0.3)
+        g1, g2 = one(), one()
+        if variant == "mtg":
+            for e in g2["edges"]:
+                e[2].setdefault("order", 1)      # MTG: order missing on at most one graph (ASSUMPTIONS)
+        if rng.random() < 0.5:
+            out.append(_mk("degenerate", g1, g2, rng.random() < 0.6, variant, cfg["node_attrs"], cfg["node_defaults"],
+                           implicit=cfg["implicit"]))
+        else:
+            g3 = one()
+            if variant == "mtg":
+                for e in g3["edges"]:
+                    e[2].setdefault("order", 1)
+                for e in g1["edges"]:
+                    e[2].setdefault("order", 1)
+            steps = [dict(g1=g1, g2=g2, mcs=rng.random() < 0.6, reads=["G2_to_G1", "G1_to_G2"]),
+                     dict(g1=g2, g2=g3, mcs=rng.random() < 0.6, reads=["G1_to_G2", "kw"], src_g1=[0, "g2"]),
+                     dict(g1=g3, g2=g1, mcs=True, reads=["pattern_to_host", "G2_to_G1"], src_g1=[1, "g2"], src_g2=[0, "g1"])]
+            out.append(_hist_case("history/degenerate", variant, [cfg], steps))
+    return out
+
+
+def _sizes(rng, n):
+    """Graphs with 10-12 atoms and two- / three-digit node ids: a relabelled copy (possibly with one atom changed or two
+    atoms added), maximum mode, so that the search stops at one of the two top levels."""
+    out = []
+    for t in range(n):
+        k = rng.randint(10, 12)
+        g1 = _rand(rng, k, 0.0, elements=("C", "N", "O", "S"))
+        ids = [x for x, _ in g1["nodes"]]
+        for i in range(1, k):                   # random tree + a few ring closures, varied orders
+            g1["edges"].append([ids[rng.randrange(i)], ids[i], {"order": rng.choice([1, 1, 2, 1.5])}])
+        have = {frozenset((u, v)) for u, v, _ in g1["edges"]}
+        for _ in range(rng.randint(0, 2)):
+            u, v = rng.sample(ids, 2)
+            if frozenset((u, v)) not in have:
+                have.add(frozenset((u, v)))
+                g1["edges"].append([u, v, {"order": 1}])
+        g1 = G.random_relabel(g1, rng, 10, 140)
+        ids = [x for x, _ in g1["nodes"]]
+        g2 = G.shuffle_insertion(G.relabel(g1, dict(zip(ids, rng.sample(range(10, 400), k)))), rng)
+        g2 = _gcopy(g2)
+        z = rng.random()
+        if z < 0.35:
+            a = rng.choice([x for x in g2["nodes"] if sum(1 for e in g2["edges"] if x[0] in (e[0], e[1])) == 1] or g2["nodes"])[1]
+            a["element"] = "P"                 # a leaf changed: maximum = k - 1
+        elif z < 0.6:
+            new = 500 + t
+            g2["nodes"].append([new, {"element": "C", "charge": 0}])
+            g2["edges"].append([rng.choice(g2["nodes"][:-1])[0], new, {"order": 1}])
+        if rng.random() < 0.5:
+            g1, g2 = g2, g1
+        variant = "mtg" if rng.random() < 0.3 else "matcher"
+        if rng.random() < 0.6:
+            out.append(_mk("size10+", g1, g2, True, variant))
+        else:
+            cfg = dict(node_attrs=["element"], node_defaults=["*"], edge_attrs=["order"])
+            sm1, sm2 = _small_pair(rng)
+            steps = [dict(g1=g1, g2=g2, mcs=True, reads=["G1_to_G2"]), dict(g1=sm1, g2=sm2, mcs=True, reads=["G2_to_G1", "G1_to_G2"]),
+                     dict(g1=g2, g2=g1, mcs=True, reads=["G2_to_G1"], src_g1=[0, "g2"], src_g2=[0, "g1"])]
+            out.append(_hist_case("history/size10+", variant, [cfg], steps))
+    return out
+
+
 def gen_cases(tier, rng):
     cases = []
     cls = {n: [_strip(g) for g in G.iso_classes(n, G.MOL_NODE_LABELS_NOH, G.MOL_EDGE_LABELS)] for n in (1, 2, 3)}
@@ -606,4 +995,8 @@ def gen_cases(tier, rng):
     cases += _low_overlap(rng, 150 if tier == "quick" else 1500)
     cases += _respelled(rng, 250 if tier == "quick" else 2500)
     cases += _oracle_only(rng, 150 if tier == "quick" else 1500)
+    cases += _histories(rng, 320 if tier == "quick" else 3000)
+    cases += _histories(rng, 60 if tier == "quick" else 600, calls=("fcs", "rc_its", "component", "mcs_mol"))
+    cases += _degenerate(rng, 120 if tier == "quick" else 1000)
+    cases += _sizes(rng, 24 if tier == "quick" else 150)
     return cases
